@@ -57,6 +57,12 @@ MUTANTS = [
      "        operation = operations.get(operation_name)", "        operation = operations.get(operation_name) or next(iter(operations.values()), None)"),
     ("execute-catch-all-narrowed", ["C18"], "tartiflette/engine.py",
      "        except Exception as e:\n            if not isinstance(e, TartifletteError):", "        except (ValueError, KeyError) as e:\n            if not isinstance(e, TartifletteError):"),
+    ("ctor-default-resolver-ignored-by-cook", ["C01"], "tartiflette/engine.py",
+     "        custom_default_resolver = (\n            custom_default_resolver or self._custom_default_resolver\n        )",
+     "        custom_default_resolver = custom_default_resolver"),
+    ("custom-default-type-resolver-dropped", ["C01"], "tartiflette/engine.py",
+     "            custom_default_resolver,\n            custom_default_type_resolver,\n            custom_default_arguments_coercer,",
+     "            custom_default_resolver,\n            None,\n            custom_default_arguments_coercer,"),
     ("include-inverted", ["C01"], "tartiflette/directive/builtins/include.py",
      'if not directive_args["if"]:', 'if directive_args["if"] is None:'),
 ]
